@@ -58,7 +58,8 @@ class Ctx:
         self.validation = []; self.witness = []; self.jobs_log = []; self.max_rss_kb = 0
         self.extra = {}
         try:
-            self.findings = [f for f in json.load(open(os.path.join(VERIF, "known_findings.json"))).get("findings", []) if f.get("property") == pid]
+            kf = os.environ.get("VERIF_KNOWN_FINDINGS", os.path.join(VERIF, "known_findings.json"))     # override: self-tests only
+            self.findings = [f for f in json.load(open(kf)).get("findings", []) if f.get("property") == pid]
         except Exception:
             self.findings = []
 
